@@ -17,8 +17,8 @@ type timerRec struct {
 	parent int
 	tm     *time.Timer
 	queue  []*Task
-	spare  int   // how many of the youngest tasks in queue belong to armings that were cancelled (0 or 1)
-	last   *Task // the task of the most recent firing (recycled once it is done)
+	spare  int     // how many of the youngest tasks in queue belong to armings that were cancelled (0 or 1)
+	served []*Task // tasks that have served firings (recycled once such a firing is over)
 }
 
 //go:norace
@@ -46,7 +46,9 @@ func (r *timerRec) fire() {
 		t = r.queue[0]
 		r.queue = r.queue[1:]
 	}
-	r.last = t
+	if t != nil {
+		r.served = append(r.served, t)
+	}
 	s.tunlock()
 	if t == nil {
 		// re-armed behind the simulator's back: allocate now (which task id this firing gets then
@@ -58,7 +60,7 @@ func (r *timerRec) fire() {
 		s.tlock()
 		s.St.TimerUnseen++
 		t.timer = r.tm
-		r.last = t
+		r.served = append(r.served, t)
 		s.tunlock()
 	}
 	s.taskMain(t, r.f)
@@ -76,22 +78,25 @@ func (s *Sim) timerRec(tm *time.Timer) *timerRec {
 	return nil
 }
 
-// push appends a task for one more firing: the task of the previous firing when that firing is over
-// (a timer that re-arms itself forever would otherwise use up the task table), otherwise a new one.
+// push appends a task for one more firing: the task of an earlier firing that is over (a timer that
+// re-arms itself forever would otherwise use up the task table), otherwise a new one.
 // Called from the task that (re)arms the timer.
 //
 //go:norace
 func (r *timerRec) push(me *Task) bool {
 	s := r.s
 	s.tlock()
-	if l := r.last; l != nil && l != me && l.state == stDone {
-		l.state = stCreated
-		l.kill = false
-		l.op, l.obj = 0, nil
-		r.queue = append(r.queue, l)
-		r.last = nil
-		s.tunlock()
-		return true
+	for i, l := range r.served {
+		// a firing that is over (a timer re-arming itself from its own callback is still running: not that one)
+		if l != me && l.state == stDone {
+			r.served = append(r.served[:i], r.served[i+1:]...)
+			l.state = stCreated
+			l.kill = false
+			l.op, l.obj = 0, nil
+			r.queue = append(r.queue, l)
+			s.tunlock()
+			return true
+		}
 	}
 	s.tunlock()
 	t := s.newTask("timer", false, true, r.parent)
